@@ -92,6 +92,41 @@ def toyProd (j : Json) : Except String (Int → Option (List Int)) := do
 def toyRule (j : Json) : Except String (Rule Int) := do
   pure ⟨← toyPred (← field j "pred"), ← toyProd (← field j "prod")⟩
 
+/-! fixture rules on gate operations (parameters are opaque JSON): the harness defines the same two rules in Python
+    and mixes them with the bundled rule, so that "rules are applied in the order given to the output of the previous
+    rule" is exercised through `decompose_orquestra_circuit` with rules that feed each other
+    (`rx` produces a U3, which the bundled rule replaces only if it comes later in the list) -/
+
+/-- RX(theta) -> U3(theta, -pi/2, pi/2) on the same qubit; only the plain gate (name "RX") is matched -/
+def rxRule : Rule (Operation Json Cyc8) :=
+  ⟨fun o => match o with
+     | .gate (.mf "RX" _ _) _ => some true
+     | _ => some false,
+   fun o => match o with
+     | .gate (.mf "RX" [th] _) qs => some [.gate (.mf "U3" [th, Json.str "-pi/2", Json.str "pi/2"] none) qs]
+     | _ => none⟩
+
+/-- SWAP(a, b) -> CNOT(a, b), CNOT(b, a), CNOT(a, b) -/
+def swapRule : Rule (Operation Json Cyc8) :=
+  ⟨fun o => match o with
+     | .gate (.mf "SWAP" _ _) _ => some true
+     | _ => some false,
+   fun o => match o with
+     | .gate (.mf "SWAP" _ _) [a, b] =>
+       some [.gate (.mf "CNOT" [] none) [a, b], .gate (.mf "CNOT" [] none) [b, a], .gate (.mf "CNOT" [] none) [a, b]]
+     | _ => none⟩
+
+/-- "rules": a number k (k copies of the bundled rule) or a list of names "u3" | "rx" | "swap" -/
+def rulesOfJson (j : Json) : Except String (List (Rule (Operation Json Cyc8))) :=
+  match j with
+  | Json.arr a => a.toList.mapM (fun x => do
+      match ← strOfJson x with
+      | "u3" => pure u3Rule
+      | "rx" => pure rxRule
+      | "swap" => pure swapRule
+      | s => throw s!"unknown rule {s}")
+  | _ => do pure (List.replicate (← natOfJson j) u3Rule)
+
 def circuitToJson {α : Type} (par : α → Json) (c : Circuit α Cyc8) : Json :=
   Json.mkObj [("ops", Json.arr (c.ops.map (opToJson par)).toArray), ("n", Json.num (JsonNumber.fromNat c.n))]
 
@@ -101,15 +136,15 @@ def handle (op : String) (j : Json) : Except String Json := do
     -- parameters are opaque (numbers, symbols, expressions): passed through as JSON
     let ops ← listOfJson (opOfJson (α := Json) pure) (← field j "ops")
     let n ← natOfJson (← field j "n")
-    let k ← natOfJson (← field j "rules")
+    let rules ← rulesOfJson (← field j "rules")
     let c : Circuit Json Cyc8 := ⟨ops, n⟩
-    match decomposeCircuit (List.replicate k u3Rule) c with
+    match decomposeCircuit rules c with
     | none => pure (Json.str "err")
     | some c' => pure (circuitToJson id c')
   | "decompose_ops" =>
     let ops ← listOfJson (opOfJson (α := Json) pure) (← field j "ops")
-    let k ← natOfJson (← field j "rules")
-    match decomposeOperations (List.replicate k u3Rule) ops with
+    let rules ← rulesOfJson (← field j "rules")
+    match decomposeOperations rules ops with
     | none => pure (Json.str "err")
     | some out => pure (Json.arr (out.map (opToJson id)).toArray)
   | "rule" =>
